@@ -709,12 +709,17 @@ def arrayRest (f : Fmt) (sep pad : Str) (szBreak : Bool) : List (Str Ã— Bool) â†
     sep ++ (if !ah && (szBreak || (f.alt && prev)) then '\n' :: pad else if !(f.alt && ah) then [' '] else []) ++ s ++
       arrayRest f sep pad szBreak rest ah
 
+/-- `szBreak`: in alt mode with a width, the elements are broken one per line when a run of non-container elements
+    is wider (in bytes) than the width -/
+def szBreakOf (f : Fmt) (parts : List (Str Ã— Bool)) : Bool :=
+  f.alt && (match f.width with | some w => szBreakLoop w parts 0 | none => false)
+
 /-- everything Array.ToString2 writes, given the rendered elements (text, isContainer) -/
 def arrayAssemble (f : Fmt) (ind0 : Ind) (parts : List (Str Ã— Bool)) : Str :=
   let ind := ind0.withIndenting (f.alt || ind0.indenting)
   let (l, r) := delimPair f.ldelim '['
   let childrenIndent := ind.increase f.alt
-  let szBreak := f.alt && (match f.width with | some w => szBreakLoop w parts 0 | none => false)
+  let szBreak := szBreakOf f parts
   let sep := f.sep.getD [',']
   (if ind.breaks then '\n' :: ind.padding else []) ++ l ++
   (match parts with
